@@ -83,6 +83,9 @@ structure WireReport where
   /-- (sink, colour, producer): a producer planned for a *scalar* operand of the sink is visible to one
   of its wildcard (each / anything / everything) operands -/
   pollution : List (Nat × Nat × Nat) := []
+  /-- (sink, producer): a producer planned for the wildcard operand reaches the sink on both colours, both of which
+  a wildcard operand or an `each` / `everything` copy output reads: its signals are counted twice -/
+  doubled : List (Nat × Nat) := []
   /-- (sink, producer): a planned producer is connected only on a colour on which the sink reads none
   of the signals it may emit -/
   unselected : List (Nat × Nat) := []
@@ -179,6 +182,11 @@ def wireCheck (bp : Blueprint) (circ : Circuit) (intended0 : Array (List Nat)) (
       let ok := [1, 2].any (fun colour =>
         readsWild k colour && (if colour == 1 then circ.prodR.getD i [] else circ.prodG.getD i []).contains p)
       if ok then none else some (i, p)))
-  { pollution, unselected := unselected ++ wildUnselected, intrusions, missing, unjustified }
+  let doubled : List (Nat × Nat) := wild.flatMap (fun (i, ws) =>
+    let k := circ.kind i
+    if readsWild k 1 && readsWild k 2 then
+      (ws.filter (fun p => (circ.prodR.getD i []).contains p && (circ.prodG.getD i []).contains p)).map (fun p => (i, p))
+    else [])
+  { pollution, doubled, unselected := unselected ++ wildUnselected, intrusions, missing, unjustified }
 
 end Facto
